@@ -80,7 +80,10 @@ pub const FEATS: [&str; 26] = [
 ];
 pub const NODES: [&str; 4] = ["lab", "cor", "dor", "phr"];
 pub const GROUPS: [&str; 8] = ["C", "O", "S", "L", "N", "G", "V", "P"];
-const DIACRITS: [&str; 12] = ["ʰ", "ʷ", "ʲ", "ˠ", "ˤ", "ʼ", "ʱ", "̥", "̃", "̬", "̩", "̯"];
+/// segment + diacritic combinations whose prerequisites hold (checked by `ascasim wordstats`)
+const COMBOS: [&str; 31] = [
+    "pʰ", "tʰ", "kʰ", "bʱ", "dʱ", "ɡʱ", "kʷ", "ɡʷ", "tʲ", "dʲ", "nʲ", "sʲ", "lˠ", "tˤ", "sˤ", "pʼ", "tʼ", "kʼ", "n̩", "m̩", "l̩", "r̩", "ã", "ẽ", "õ", "i̯", "u̯", "t̪", "d̪", "n̥", "l̥",
+];
 
 pub fn run_call(rules: Vec<String>, words: Vec<String>) -> Call {
     Call { kind: "run".into(), rules: vec![Group::anon(rules)], words, into: vec![], from: vec![] }
@@ -109,11 +112,11 @@ pub fn renderer_sweep(d: &Data) -> Vec<Call> {
 }
 
 pub fn gen_segment(d: &Data, r: &mut Rng) -> String {
-    let mut s = if r.chance(3, 4) { r.pick(&d.simple_cardinals).clone() } else { r.pick(&d.cardinals).clone() };
-    if r.chance(1, 5) {
-        let dia: &str = *r.pick(&DIACRITS[..]);
-        s.push_str(dia);
-    }
+    let mut s = match r.below(20) {
+        0..=12 => r.pick(&d.simple_cardinals).clone(),
+        13..=15 => r.pick(&d.cardinals).clone(),
+        _ => r.pick(&COMBOS[..]).to_string(),
+    };
     if r.chance(1, 12) {
         s.push('ː');
     }
@@ -123,7 +126,7 @@ pub fn gen_segment(d: &Data, r: &mut Rng) -> String {
 pub fn gen_word(d: &Data, r: &mut Rng) -> String {
     match r.below(10) {
         0..=2 => r.pick(&d.test_words).clone(),
-        3 => r.pick(&d.example_words).clone(),
+        3 => r.pick(&d.test_words).clone(),
         4 => {
             // a word built around a tie group member
             let g = r.pick(&d.tie_groups);
